@@ -310,8 +310,9 @@ fn run_case(c: &Case, msgs: &[Option<Msg>], seed: u64, st: &mut Stats) {
                         received.fetch_add(n, SeqCst);
                         i += 1;
                     }
-                    Err(e) if e.kind() == ErrorKind::Interrupted => continue,
-                    Err(e) => return Err(format!("read error {:?}", e.kind())),
+                    // futures-io: "poll_read may not return errors of kind WouldBlock or Interrupted" - an
+                    // async consumer (read_to_end, hyper's body stream) does not retry them
+                    Err(e) => return Err(format!("read error {:?} surfaced through the async interface", e.kind())),
                 }
             }
             Ok((out, calls))
